@@ -20,6 +20,9 @@ def make_options(o):
     kw = dict(o)
     if kw.get("addition") == "int":
         kw["addition"] = int
+    elif kw.get("addition") == "list_int":
+        import typing
+        kw["addition"] = typing.List[int]      # an annotation, not a class
     if "alias_generator" in kw or "alias_from_generator" in kw:
         from .dspec import ALIAS_GENS
         if "alias_generator" in kw:
